@@ -97,14 +97,22 @@ pub fn list_slice<T: Clone>(list: &[T], start: Option<i64>, end: Option<i64>, st
             if let Some(v) = list.get(i as usize) {
                 out.push(v.clone());
             }
-            i += step;
+            // A step near i64::MAX must end the walk, not wrap around.
+            match i.checked_add(step) {
+                Some(next) => i = next,
+                None => break,
+            }
         }
     } else {
         while i > end_idx {
             if let Some(v) = list.get(i as usize) {
                 out.push(v.clone());
             }
-            i += step; // negative
+            // negative step; a step near i64::MIN must end the walk, not wrap around.
+            match i.checked_add(step) {
+                Some(next) => i = next,
+                None => break,
+            }
         }
     }
 
